@@ -148,20 +148,20 @@ func traceConc(o opts) error {
 		}
 		listHeavy := false
 		exactLister := r.Intn(2) == 0
-		// one history in eight is list-heavy: one caller lists again and again (by the exact-name
+		// one history in five is list-heavy: one caller lists again and again (by the exact-name
 		// route) while two others keep writing, each to its own name - a listing must be one
 		// consistent view of both
-		if via == "db" && r.Intn(8) == 0 {
+		if via == "db" && r.Intn(5) == 0 {
 			exactLister = true
 			listHeavy = true
 			names = []string{"x", "y"}
 			nthreads = 3
 			progs = make([][]dbOp, 3)
-			for k := 0; k < 14; k++ {
+			for k := 0; k < 20; k++ {
 				progs[0] = append(progs[0], dbOp{aok: 1, sok: true, kind: "list", name: "x"})
 			}
 			for t := 1; t <= 2; t++ {
-				for k := 0; k < 6; k++ {
+				for k := 0; k < 8; k++ {
 					progs[t] = append(progs[t], dbOp{aok: 1, sok: true, kind: "put", name: names[t-1], val: []byte(fmt.Sprintf("w%dk%d", t, k))})
 				}
 			}
